@@ -452,7 +452,7 @@ func equal4Stream(n int) {
 	keyPool = []string{"a", "b", "c", "a/b", "m~n", "0", "1", "-", "é", " ", "x y", "foo", "bar"}
 	defer func() { strPool = saved; keyPool = savedK }()
 	for i := 0; i < n; i++ {
-		g := genOpts{depth: 1 + rng.Intn(3), ws: chance(0.5), canonical: true}
+		g := genOpts{depth: 1 + rng.Intn(3), ws: chance(0.5), canonical: true, dupKeys: chance(0.15)}
 		var a []byte
 		if chance(0.5) {
 			a = []byte(genObject(g, g.depth))
@@ -469,6 +469,19 @@ func equal4Stream(n int) {
 			b = []byte(respell(perturb4(av), g))
 		default:
 			b = []byte(genObject(g, g.depth))
+		}
+		if chance(0.04) {
+			// a member name spelled more than once (the last value counts) against the text that spells it once
+			k1, k2 := pick(`"a"`, `"k"`, `"x y"`), pick(`"b"`, `"z"`)
+			v1, v2 := genValue(g, 1), genValue(g, 1)
+			a = []byte("{" + k1 + ":" + v1 + "," + k1 + ":" + v2 + "," + k2 + ":1}")
+			b = []byte("{" + k1 + ":" + pick(v2, v2, v1) + "," + k2 + ":1}")
+			if chance(0.4) {
+				a, b = []byte("["+string(a)+"]"), []byte("["+string(b)+"]")
+			}
+			if chance(0.5) {
+				a, b = b, a
+			}
 		}
 		emitEqual4(a, b)
 	}
